@@ -187,7 +187,7 @@ def run(chk, tier, seed, replay):
                 continue
             for d in derives:
                 bases.append((key, d, item))
-    reqs, meta = [], {}
+    reqs, meta, pairs = [], {}, []
     for bi, (key, d, item) in enumerate(bases):
         for di, decl in enumerate(decls):
             if tier == "quick" and len(decl) == 3 and vlib.seeded_pick(f"{bi}:{di}", seed, 3) != 0:
@@ -201,6 +201,14 @@ def run(chk, tier, seed, replay):
                 continue
             reqs.append({"key": k, "derive": d, "item": gitem, "tokens": False})
             meta[k] = (d, name, decl, gitem)
+            if ww and "where" in gitem:
+                # the same declaration without its where-clause: what the derive ADDS must not depend on it (Additive)
+                g0, _ = genericize(item, decl, False)
+                k0 = f"{d}|{g0}"
+                if k0 not in meta:
+                    reqs.append({"key": k0, "derive": d, "item": g0, "tokens": False})
+                    meta[k0] = (d, name, decl, g0)
+                pairs.append((k, k0))
     if replay:
         want = json.load(open(replay))["key"]
         reqs = [x for x in reqs if x["key"] == want]
@@ -224,6 +232,24 @@ def run(chk, tier, seed, replay):
                           tags={"kind": "header_" + clause, "derive": d})
         if len(chk.cov["samples"]) < 3 and len(decl) == 3 and d in ("Mul", "Into", "TryFrom"):
             chk.sample({"derive": d, "item": gitem, "impl_params": [im["params"] for im in o["impls"]][:2]})
+    # Additive (Generics.tla): the predicates an impl carries for a declaration WITH a where-clause are those it carries
+    # without it, plus the declaration's own - nothing the derive adds is lost or changed because a where-clause exists
+    def preds(im):
+        return sorted(re.sub(r"\s+", " ", w.strip().rstrip(",")) for w in im["where"])
+    for k, k0 in pairs:
+        o, o0 = obs.get(k), obs.get(k0)
+        if not o or not o0 or o["outcome"] != "ok" or o0["outcome"] != "ok" or len(o["impls"]) != len(o0["impls"]):
+            continue
+        d, name, decl, gitem = meta[k]
+        m_where = re.search(r"\bwhere\s+(\w+)\s*:\s*Default\b", gitem)
+        chk.cov["evaluations"] += 1
+        for im, im0 in zip(o["impls"], o0["impls"]):
+            with_w = [w for w in preds(im) if not re.fullmatch(m_where.group(1) + r"\s*:\s*Default", w)]
+            if with_w != preds(im0) and sorted(set(with_w)) != sorted(set(preds(im0))):
+                chk.deviation(k + "|Additive", "the predicates the derive adds change when the declaration has a where-clause of its own: "
+                              f"{with_w} (plus the declaration's) against {preds(im0)} without it", case={"derive": d, "item": gitem, "without": meta[k0][3]},
+                              expected=preds(im0), observed=with_w, tags={"kind": "header_Additive", "derive": d})
+                break
     chk.cov["traces_validated_against_impl"] += len(reqs)
     chk.cov["distinct_nontrivial"] += nontriv
     if replay and not reqs:
